@@ -1,7 +1,8 @@
 (* Case evaluation for the C15 correspondence run.
    agree   : the model (Model.ql_export / ql_events) applied to the listing tree = the structure and the call log the
              recording doubles observed; for the real-platform cases: OpenQL's `duplicate kernel name` error is raised
-             exactly when the modelled structure adds a kernel name twice.
+             exactly when the modelled structure adds a kernel name twice (with the current walk: never) and nothing else
+             is raised.
    spec_ok : the statement of C15 on the implementation's output, without the exporter model: what the recorded program
              executes (sub-programs and kernels in the order added) is the in-order image (Spec.ql_spec_calls) of the
              expanded listing; names are the specified function of the class-name sequence and equal on a second build;
